@@ -3,13 +3,17 @@
  * run_geometry()      : run one Geometry_*.cfg through TLC and return the parsed JSON records
  * Oracle              : finishes the irrational step (sqrt, atan2) of a forward record in 40-digit decimals
  * Routes / judge_fwd  : feeds a batch of forward records (one parameter set, many peaks) to every implementation
-                         route and compares each output with the oracle (C01)
+                         route and compares each output with the oracle (C01); SUBSETS / subset_history: histories of one
+                         object between whose two updates only a subset of the parameters changes
+ * Oracle(unit=u)      : the same records written in another length unit (UnitLaw: lengths times u, angles / g / pixels
+                         unchanged); unit_scales() lists the units
  * judge_laws / judge_internal / judge_project / judge_inverse / judge_axis : reference-free laws (incl. the round trip of
                          the forward routes through uncompute_g_vectors), Bragg's law of every route incl. the numba one,
                          the arctan-free sin^2(theta) and PixelLUT (judge_lut), detector projection and the two round
                          trips through every route, g -> angles and the gv_general conventions on the SpecAx records (C02)
 
-Comparison rule everywhere: |x - e| <= 1e-9 * scale + 1e-12 (scale = largest magnitude of the expected vector),
+Comparison rule everywhere: |x - e| <= 1e-9 * scale + 1e-12 (scale = largest magnitude of the expected vector; for a
+length the absolute term is 1e-12 times the batch's length unit when that is below 1),
 angles modulo 360 at 1e-6 degree, eta not compared where (dy, dz) = (0, 0) exactly.
 """
 import os, io, json, math, contextlib
@@ -80,19 +84,32 @@ def ang_deg(a):
     return math.degrees(math.atan2(a[1], a[0]))
 
 
-def pars_of(par):
-    """ImageD11 parameter dictionary of a configuration (tilts in radians, wedge/chi in degrees)"""
+LENGTHS = ("y_size", "z_size", "distance", "t_x", "t_y", "t_z")
+
+
+def unit_scales(recs):
+    """the length units in which a forward record is replayed (UnitLaw of the specification: homogeneity of degree one,
+    so it composes): u^-1 and u^-2 for the specification's large factors u (1000: a geometry written in microns read as
+    mm and as metres; 1024: the same steps without rounding of the parameters), and 1000 (nanometres)"""
+    us = [u for u in recs[0].get("units", (1000, 1024)) if u >= 1000]
+    return tuple(F(1, u) for u in us) + tuple(F(1, u * u) for u in us) + (F(1000),)
+
+
+def pars_of(par, unit=1):
+    """ImageD11 parameter dictionary of a configuration (tilts in radians, wedge/chi in degrees); every length of the
+    configuration (pixel sizes, distance, translation) is multiplied by `unit` (the nearest double of the exact product)"""
     o = par["o"]
+    u = F(unit)
     return {
         "y_center": float(par["yc"]), "z_center": float(par["zc"]),
-        "y_size": float(par["ys"]), "z_size": float(par["zs"]),
-        "distance": float(par["dist"]),
+        "y_size": float(par["ys"] * u), "z_size": float(par["zs"] * u),
+        "distance": float(par["dist"] * u),
         "tilt_x": ang_rad(par["tilt_x"]), "tilt_y": ang_rad(par["tilt_y"]), "tilt_z": ang_rad(par["tilt_z"]),
         "o11": float(o[0]), "o12": float(o[1]), "o21": float(o[2]), "o22": float(o[3]),
         "wedge": ang_deg(par["wedge"]), "chi": ang_deg(par["chi"]),
         "omegasign": float(par["sgn"]),
         "wavelength": par["wl"][0] / float(par["wl"][1]),
-        "t_x": float(par["t"][0]), "t_y": float(par["t"][1]), "t_z": float(par["t"][2]),
+        "t_x": float(par["t"][0] * u), "t_y": float(par["t"][1] * u), "t_z": float(par["t"][2] * u),
     }
 
 
@@ -112,14 +129,19 @@ def group_records(recs):
 # the oracle: finishing step in 40-digit decimals from the exact integers of the specification
 
 class Oracle(object):
-    """expected values of a batch of forward records (rows = peaks)"""
+    """expected values of a batch of forward records (rows = peaks).  unit (a Fraction): the batch is written in a length
+    unit 1/unit times the specification's - the parameters P carry pixel sizes, distance and translation times unit, the
+    expected xyz, org and d are the record's times unit, every angle, k, g, ds, sin^2(theta) and the pixel (sc, fc) are
+    the record's own (UnitLaw)"""
 
-    def __init__(self, recs, perturb=None):
+    def __init__(self, recs, perturb=None, unit=None):
         n = len(recs)
         self.n = n
         self.recs = recs
         self.par = recs[0]["par"]
-        self.P = pars_of(self.par)
+        self.unit = F(1) if unit is None else F(unit)
+        self.unitf = float(self.unit)
+        self.P = pars_of(self.par, self.unit)
         self.lam = self.P["wavelength"]
         # peak positions are rationals sc/pden (the nearest double is handed to the code)
         self.sc = np.array([r["par"]["sc"] / float(r["par"]["pden"]) for r in recs])
@@ -178,6 +200,10 @@ class Oracle(object):
                 self.eta[i] = math.degrees(math.atan2(-float(dv[1]), float(dv[2])))
             # cosine of incidence of the ray on the detector plane, n.d / |d|   (n.d = sden / snd[1])
             self.cosinc[i] = abs(float(D(r["sden"]) / D(r["snd"][1]) / absd))
+        if self.unit != 1:
+            self.xyz *= self.unitf
+            self.org *= self.unitf
+            self.d *= self.unitf
         # rows beyond two-theta = 90 degrees (d_x < 0), and the conditioning of the arctan-free sin^2(theta) there
         self.back = self.ok & (self.d[:, 0] < 0)
         self.sswiden = arctanfree_widen(self.d.T)
@@ -248,18 +274,20 @@ def arctanfree_undefined(xyz):
 
 
 class Judge(object):
-    def __init__(self, ok):
+    def __init__(self, ok, unit=1.0):
         self.ok = ok
         self.problems = []
         self.worst = 0.0          # worst |x-e| / (REL*scale+ABS) seen (<= 1 passes)
         self.ncmp = 0
+        self.findings = []        # (finding id, text): failures that match a recorded defect of ImageD11 structurally
+        self.unit = unit          # length unit of the batch: the absolute term of a LENGTH comparison is ABS * unit
 
     def _report(self, label, bad, got, exp):
         i = int(np.argmax(bad))
         self.problems.append("%s: row %d got %s expected %s" % (label, i, np.asarray(got)[i].tolist(),
                                                                 np.asarray(exp)[i].tolist()))
 
-    def vec(self, label, got, exp, widen=None):
+    def vec(self, label, got, exp, widen=None, length=False):
         got = np.asarray(got, float)
         exp = np.asarray(exp, float)
         if got.shape != exp.shape:
@@ -270,7 +298,7 @@ class Judge(object):
         if exp.ndim == 2:
             err = err.max(axis=1)
             scale = scale.max(axis=1)
-        tol = REL * scale + ABS
+        tol = REL * scale + (ABS * min(self.unit, 1.0) if length else ABS)
         if widen is not None:
             tol = tol * widen
         ok = self.ok
@@ -288,10 +316,11 @@ class Judge(object):
 
     def sub(self, ok):
         """a judge over another set of rows (e.g. the pixels of a look-up table); fold it back with absorb()"""
-        return Judge(np.asarray(ok, bool))
+        return Judge(np.asarray(ok, bool), self.unit)
 
     def absorb(self, other):
         self.problems += other.problems
+        self.findings += other.findings
         self.ncmp += other.ncmp
         self.worst = max(self.worst, other.worst)
 
@@ -443,10 +472,80 @@ GEOCOLS = ("xl", "yl", "zl", "tth", "eta", "ds", "gx", "gy", "gz")
 # one object; al_last / al_first = only that position of the batch's grain in assignlabels (default: both);
 # numba_1grid = get_local_gv on the first grid only
 ALL_ROUTES = ("py", "c", "ct", "cf", "cf_file", "cfx", "numba", "rg", "al")
+REPLAY_ROUTES = ALL_ROUTES + ("hist_all",)      # hist_all = every subset history, not the next few of the rotation
 FAMILIES = ("cfx_xc_yc", "cfx_array2d_prefilled", "cfx_array2d_bare", "cfx_copy", "cfx_filter", "cfx_bigarray_after_update",
             "assignlabels_gv_rows", "assignlabels_per_grain_rows", "typed_batches", "typed_numba", "gve_per_row_xpos_rows",
             "local_gv_grids", "ctransform_out_buffers", "ctransform_reset", "ctransform_source_edit", "xlylzl_dist_yz",
-            "inputs_intact_checks")
+            "inputs_intact_checks", "ctransform_subset_edit", "cf_subset_histories")
+
+
+# Histories of ONE object between whose two updates only a SUBSET of the parameters changes (what a fit of the wavelength,
+# of the wedge, of the detector position ... does): every single parameter (the four flip elements as one), and the
+# groups a program could treat alike.  The first parameter set is the batch's own with the subset taken from P0.
+_DETECTOR = ("y_center", "z_center", "y_size", "z_size", "distance", "tilt_x", "tilt_y", "tilt_z", "o11", "o12", "o21", "o22")
+_FLIP = ("o11", "o12", "o21", "o22")
+SUBSETS = tuple((k, (k,)) for k in ("wavelength", "wedge", "chi", "omegasign", "t_x", "t_y", "t_z", "y_center", "z_center",
+                                    "y_size", "z_size", "distance", "tilt_x", "tilt_y", "tilt_z")) + (
+    ("flip", _FLIP), ("wedge+chi", ("wedge", "chi")), ("wavelength+omegasign", ("wavelength", "omegasign")),
+    ("translation", ("t_x", "t_y", "t_z")), ("detector", _DETECTOR),
+    ("non-detector", ("wavelength", "wedge", "chi", "omegasign", "t_x", "t_y", "t_z")),
+    ("sample stage", ("wedge", "chi", "omegasign")), ("tilts", ("tilt_x", "tilt_y", "tilt_z")),
+    ("pixel sizes+distance", ("y_size", "z_size", "distance")), ("centre", ("y_center", "z_center")))
+SUBSETS_PER_BATCH = 3
+_rotation = {}
+
+
+def pick_subsets(who, every=False, k=SUBSETS_PER_BATCH):
+    """the next k subsets of the rotation (all of them when a saved case is replayed); each comes with a running number
+    from which the history's shape (which call first / second, how the parameters are edited, fast or slow) is drawn"""
+    if every:
+        return [(i, nm, keys) for i, (nm, keys) in enumerate(SUBSETS)]
+    out = []
+    for _ in range(k):
+        i = _rotation.get(who, 0)
+        _rotation[who] = i + 1
+        nm, keys = SUBSETS[i % len(SUBSETS)]
+        out.append((i + 2 * (i // len(SUBSETS)), nm, keys))      # (odd step per round: every shape comes up)
+    return out
+
+
+def subset_history(rt, cf, PS, P, keys, v, translation=None):
+    """cf is updated for the parameters PS, then only `keys` are edited to the values of P and cf is updated again.
+    The shape is drawn from the running number v: which call comes first / second (updateGeometry, updateGV), the
+    compiled or the Python route (three in four compiled), and how the edit is made (parameters.set on the kept object,
+    dictionary item assignment, a new parameters object, a new object through the pars= argument).
+    returns (description, only_g: the second call was updateGV and fills gx, gy, gz only)"""
+    first, second = (("updateGeometry", "updateGeometry"), ("updateGV", "updateGV"), ("updateGV", "updateGeometry"),
+                     ("updateGeometry", "updateGV"))[v % 4]
+    fast = (v // 4) % 4 != 3
+    edit = ("parameters.set", "dictionary item", "new parameters object", "pars= argument")[(v // 16 + v) % 4]
+    po = rt.parameters.parameters(**PS)
+    getattr(cf, first)(pars=po, translation=translation, fast=fast)
+    arg = None
+    if edit == "parameters.set":
+        for k in keys:
+            po.set(k, P[k])
+    elif edit == "dictionary item":
+        for k in keys:
+            po.parameters[k] = P[k]
+    elif edit == "new parameters object":
+        cf.parameters = rt.parameters.parameters(**P)
+    else:
+        arg = rt.parameters.parameters(**P)
+    getattr(cf, second)(pars=arg, translation=translation, fast=fast)
+    return "%s(fast=%s) after %s(fast=%s) on the same columnfile" % (second, fast, first, fast) + \
+           ", only %%s edited in between (%s)" % edit, second == "updateGV"
+
+
+def other_pars(P, Q, U=1.0):
+    """a parameter set that differs from Q in EVERY parameter (keys and types of P; U = the batch's length unit)"""
+    P0 = dict(P)
+    P0.update(o11=-Q["o11"], o12=Q["o21"], o21=Q["o12"], tilt_x=Q["tilt_y"] + 0.1, tilt_y=Q["tilt_z"] - 0.05,
+              tilt_z=Q["tilt_x"] + 0.02, wedge=Q["wedge"] + 7.0, chi=Q["chi"] - 3.0, distance=Q["distance"] * 1.5,
+              y_center=Q["y_center"] + 31.0, z_center=Q["z_center"] - 17.0, y_size=Q["y_size"] * 2, z_size=-Q["z_size"],
+              omegasign=-Q["omegasign"], wavelength=Q["wavelength"] * 1.25, t_x=Q["t_x"] + 5.0 * U, t_y=Q["t_y"] - 7.0 * U,
+              t_z=Q["t_z"] + 3.0 * U)
+    return P0
 
 
 class _Ctx(object):
@@ -456,6 +555,7 @@ class _Ctx(object):
         self.rt, self.orc, self.J, self.P, self.typing = rt, orc, J, P, typing
         self.parfile = parfile          # also run the history that goes through a parameter file on disk
         self.histories = True           # histories of one columnfile object
+        self.all_subsets = False        # every subset history instead of the next few of the rotation (replay of a case)
         self.orders = ("last", "first")  # position of this batch's grain among the two of assignlabels
         self.grids = len(LOCAL_GRIDS)    # how many (si, sj, ystep) grids of get_local_gv
         self.tag = "" if typing is None else " [parameters typed as a parameter file yields: %s]" % typing
@@ -463,14 +563,7 @@ class _Ctx(object):
         self.count = count if count is not None else {}
         self.pristine = {k: getattr(orc, k).copy() for k in ("sc", "fc", "omega", "oms", "xyz")}
         # a second, different parameter set (histories: computed first, must not survive)
-        Q = orc.P
-        P0 = dict(P)
-        P0.update(o11=-Q["o11"], o12=Q["o21"], o21=Q["o12"], tilt_x=Q["tilt_y"] + 0.1, tilt_y=Q["tilt_z"] - 0.05,
-                  tilt_z=Q["tilt_x"] + 0.02, wedge=Q["wedge"] + 7.0, chi=Q["chi"] - 3.0, distance=Q["distance"] * 1.5,
-                  y_center=Q["y_center"] + 31.0, z_center=Q["z_center"] - 17.0, y_size=Q["y_size"] * 2, z_size=-Q["z_size"],
-                  omegasign=-Q["omegasign"], wavelength=Q["wavelength"] * 1.25, t_x=Q["t_x"] + 5.0, t_y=Q["t_y"] - 7.0,
-                  t_z=Q["t_z"] + 3.0)
-        self.P0 = P0
+        self.P0 = other_pars(P, orc.P, orc.unitf)
 
     def hit(self, family, k=1):
         self.count[family] = self.count.get(family, 0) + k
@@ -484,7 +577,7 @@ class _Ctx(object):
     def geometry_cols(self, label, xyz, tth, eta, ds, g):
         orc = self.orc
         if xyz is not None:
-            self.vec(label + " xl,yl,zl", xyz, orc.xyz)
+            self.vec(label + " xl,yl,zl", xyz, orc.xyz, length=True)
         if tth is not None:
             self.ang(label + " tth", tth, orc.tth, modulo=False)
             self.ang(label + " eta", eta, orc.eta)
@@ -546,7 +639,7 @@ def _sec_py(ctx):
     lam = P["wavelength"]
     tkw = dict(t_x=t[0], t_y=t[1], t_z=t[2], wedge=P["wedge"], chi=P["chi"])
     xyz = tr.compute_xyz_lab(np.array([sc, fc]), **P)
-    ctx.vec("transform.compute_xyz_lab", xyz.T, orc.xyz)
+    ctx.vec("transform.compute_xyz_lab", xyz.T, orc.xyz, length=True)
     tth, eta = tr.compute_tth_eta_from_xyz(xyz, oms, **tkw)
     ctx.ang("transform.compute_tth_eta_from_xyz tth", tth, orc.tth, modulo=False)
     ctx.ang("transform.compute_tth_eta_from_xyz eta", eta, orc.eta)
@@ -554,7 +647,7 @@ def _sec_py(ctx):
     ctx.ang("transform.compute_tth_eta tth", tth2, orc.tth, modulo=False)
     ctx.ang("transform.compute_tth_eta eta", eta2, orc.eta)
     go = tr.compute_grain_origins(oms, wedge=P["wedge"], chi=P["chi"], t_x=t[0], t_y=t[1], t_z=t[2])
-    ctx.vec("transform.compute_grain_origins", go.T, orc.org)
+    ctx.vec("transform.compute_grain_origins", go.T, orc.org, length=True)
     k = tr.compute_k_vectors(tth, eta, lam)
     ctx.vec("transform.compute_k_vectors", k.T, orc.k)
     g = tr.compute_g_from_k(k, oms, P["wedge"], P["chi"])
@@ -583,7 +676,7 @@ def _sec_c(ctx):
     lam = P["wavelength"]
     ct = tr.Ctransform(dict(P))
     xyz = ct.sf2xyz(sc, fc)
-    ctx.vec("Ctransform.sf2xyz", xyz, orc.xyz)
+    ctx.vec("Ctransform.sf2xyz", xyz, orc.xyz, length=True)
     gv = ct.xyz2gv(xyz, om, t[0], t[1], t[2])
     ctx.vec("Ctransform.xyz2gv", gv, orc.g)
     geo = ct.xyz2geometry(xyz, om, t[0], t[1], t[2])
@@ -594,11 +687,13 @@ def _sec_c(ctx):
     cen = np.array([P["z_center"], P["y_center"], P["z_size"], P["y_size"]], float)
     out = np.full((n, 3), 7.25)
     rt.c.compute_xlylzl(sc, fc, cen, exact_rmat(orc.par), np.array([P["distance"], 0.0, 0.0]), out)
-    ctx.vec("cImageD11.compute_xlylzl", out, orc.xyz)
+    ctx.vec("cImageD11.compute_xlylzl", out, orc.xyz, length=True)
     # the documented "3D distance" arm: dist = [distance, dy, dz] moves the detector sideways and up
     out = np.full((n, 3), 7.25)
-    rt.c.compute_xlylzl(sc, fc, cen, exact_rmat(orc.par), np.array([P["distance"], 2.5, -1.75]), out)
-    ctx.vec("cImageD11.compute_xlylzl(dist = [distance, 2.5, -1.75])", out, orc.xyz + np.array([0.0, 2.5, -1.75]))
+    U = orc.unitf                    # (lengths chosen by the harness are written in the batch's unit too)
+    rt.c.compute_xlylzl(sc, fc, cen, exact_rmat(orc.par), np.array([P["distance"], 2.5 * U, -1.75 * U]), out)
+    ctx.vec("cImageD11.compute_xlylzl(dist = [distance, 2.5, -1.75])", out, orc.xyz + np.array([0.0, 2.5 * U, -1.75 * U]),
+            length=True)
     ctx.hit("xlylzl_dist_yz")
     xe = np.ascontiguousarray(orc.xyz)
     gout = np.full((n, 3), 7.25)
@@ -619,7 +714,7 @@ def _sec_ct(ctx):
 
     def buffers(ct, what):
         for name, shape, call, judge in (
-                ("sf2xyz", (n, 3), lambda o: ct.sf2xyz(sc, fc, out=o), lambda o: ctx.vec(what + "sf2xyz(out=)", o, orc.xyz)),
+                ("sf2xyz", (n, 3), lambda o: ct.sf2xyz(sc, fc, out=o), lambda o: ctx.vec(what + "sf2xyz(out=)", o, orc.xyz, length=True)),
                 ("xyz2gv", (n, 3), lambda o: ct.xyz2gv(xe, om, t[0], t[1], t[2], out=o),
                  lambda o: ctx.vec(what + "xyz2gv(out=)", o, orc.g)),
                 ("sf2gv", (n, 3), lambda o: ct.sf2gv(sc, fc, om, t[0], t[1], t[2], out=o),
@@ -642,6 +737,22 @@ def _sec_ct(ctx):
     ct.reset()
     buffers(ct, "Ctransform after .pars edited and reset(): ")
     ctx.hit("ctransform_reset")
+    # ... and with only a subset of the parameters edited before reset()
+    for v, nm, keys in pick_subsets("ct", ctx.all_subsets, 2):
+        PS = dict(P)
+        PS.update({k: ctx.P0[k] for k in keys})
+        ct = tr.Ctransform(PS)
+        ct.sf2gv(sc, fc, om, 1.0, 2.0, 3.0)
+        ct.xyz2geometry(xe, om, 1.0, 2.0, 3.0)
+        for k in keys:
+            if k in ct.pars:
+                ct.pars[k] = P[k]
+        ct.reset()
+        lab = "Ctransform after only %s edited in .pars and reset(): " % nm
+        ctx.vec(lab + "sf2gv", ct.sf2gv(sc, fc, om, t[0], t[1], t[2]), orc.g)
+        geo = ct.xyz2geometry(ct.sf2xyz(sc, fc), om, t[0], t[1], t[2])
+        ctx.geometry_cols(lab + "xyz2geometry", None, geo[:, 0], geo[:, 1], geo[:, 2], geo[:, 3:6])
+        ctx.hit("ctransform_subset_edit")
     # the constructor copies its parameters: editing the source dictionary afterwards changes nothing
     src = dict(P)
     ct = tr.Ctransform(src)
@@ -701,6 +812,20 @@ def _sec_cf(ctx):
             po.set(k, P[k])
         cf2.updateGV(pars=po, fast=fast)
         ctx.cf_cols("columnfile.updateGV(fast=%s) twice with one parameter object edited in between" % fast, cf2, only_g=True)
+    # ... and histories in which only a subset of the parameters changes between the two updates
+    for v, nm, keys in pick_subsets("cf", ctx.all_subsets):
+        PS = dict(P)
+        PS.update({k: P0[k] for k in keys})
+        cf = ctx.colfile()
+        trans = None
+        if (v // 64 + v) % 3 == 2:                  # a third with the translation by argument in both calls
+            PS["t_x"], PS["t_y"], PS["t_z"] = 11.0, -13.0, 17.0
+            trans = ctx.t
+        PP = dict(PS, **{k: P[k] for k in keys})     # (= P, but for an overridden translation)
+        lab, only_g = subset_history(rt, cf, PS, PP, keys, v, translation=trans)
+        ctx.cf_cols("columnfile." + lab % nm, cf, only_g=only_g)
+        ctx.hit("cf_subset_histories")
+        ctx.hit("cf_subset_history:" + nm)
 
 
 # ---- (3b) columnfile storage and naming variants (the model does not know how a columnfile stores its columns:
@@ -789,12 +914,12 @@ def _sec_numba(ctx):
         if all(isinstance(P[k], int) for k in ints):
             xyz = pbp.compute_xyz_lab(sc, fc, tilt_x=float(P["tilt_x"]), tilt_y=float(P["tilt_y"]), tilt_z=float(P["tilt_z"]),
                                       **{k: P[k] for k in ints})
-            ctx.vec("point_by_point.compute_xyz_lab", xyz.T, orc.xyz)
+            ctx.vec("point_by_point.compute_xyz_lab", xyz.T, orc.xyz, length=True)
             ctx.hit("typed_numba")
         ints = ("wedge", "chi", "t_x", "t_y", "t_z")
         if all(isinstance(P[k], int) for k in ints):
             go = pbp.compute_grain_origins(oms, P["wedge"], P["chi"], t[0], t[1], t[2])
-            ctx.vec("point_by_point.compute_grain_origins", go.T, orc.org)
+            ctx.vec("point_by_point.compute_grain_origins", go.T, orc.org, length=True)
             e0 = np.where(np.isfinite(orc.eta), orc.eta, 0.0)
             g = pbp.compute_g_vectors(orc.tth, e0, oms, float(lam), wedge=P["wedge"], chi=P["chi"])
             ctx.vec("point_by_point.compute_g_vectors(oracle tth, eta)", g.T, orc.g)
@@ -804,9 +929,9 @@ def _sec_numba(ctx):
                z_size=P["z_size"], tilt_z=P["tilt_z"], tilt_x=P["tilt_x"], distance=P["distance"],
                o11=P["o11"], o12=P["o12"], o21=P["o21"], o22=P["o22"])
     xyz = pbp.compute_xyz_lab(sc, fc, **det)
-    ctx.vec("point_by_point.compute_xyz_lab", xyz.T, orc.xyz)
+    ctx.vec("point_by_point.compute_xyz_lab", xyz.T, orc.xyz, length=True)
     go = pbp.compute_grain_origins(oms, P["wedge"], P["chi"], t[0], t[1], t[2])
-    ctx.vec("point_by_point.compute_grain_origins", go.T, orc.org)
+    ctx.vec("point_by_point.compute_grain_origins", go.T, orc.org, length=True)
     tth, eta = pbp.compute_tth_eta(sc, fc, oms, t_x=t[0], t_y=t[1], t_z=t[2], wedge=P["wedge"], chi=P["chi"], **det)
     ctx.ang("point_by_point.compute_tth_eta tth", tth, orc.tth, modulo=False)
     ctx.ang("point_by_point.compute_tth_eta eta", eta, orc.eta)
@@ -822,8 +947,9 @@ def _sec_numba(ctx):
         return pbp.compute_gve(sc, fc, oms, xpos, distance, P["y_center"], P["y_size"], P["tilt_y"], P["z_center"],
                                P["z_size"], P["tilt_z"], P["tilt_x"], P["o11"], P["o12"], P["o21"], P["o22"],
                                t[0], t[1], t[2], P["wedge"], P["chi"], lam).T
+    U = orc.unitf                    # (the offsets below are lengths: written in the batch's unit)
     for x0 in (0.0, 2.5):
-        ctx.vec("point_by_point.compute_gve(xpos=%g)" % x0, gve(np.full(n, x0), P["distance"] + x0), orc.g)
+        ctx.vec("point_by_point.compute_gve(xpos=%g)" % x0, gve(np.full(n, x0 * U), P["distance"] + x0 * U), orc.g)
     # one xpos per peak (as the refinement passes it): row i is computed at distance - xpos[i]
     xvals = [F(a - 2) * F(5, 4) + b * F(3, 8) for b in (0, 1) for a in range(5)]       # -5/2 .. 5/2 (+ 3/8), incl. 0
     ii = np.arange(n)
@@ -831,7 +957,7 @@ def _sec_numba(ctx):
     eg, okx = shifted_g(orc, xvals, xwhich, use_origin=True)
     keep = J.ok
     J.ok = okx
-    ctx.vec("point_by_point.compute_gve(one xpos per peak)", gve(np.array([float(x) for x in xvals])[xwhich], P["distance"]), eg)
+    ctx.vec("point_by_point.compute_gve(one xpos per peak)", gve(np.array([float(x * orc.unit) for x in xvals])[xwhich], P["distance"]), eg)
     J.ok = keep
     ctx.hit("gve_per_row_xpos_rows", int(okx.sum()))
     # get_local_gv: origin moved along x by sx cos(omega) - sy sin(omega), t = 0, then cImageD11.compute_gv
@@ -846,7 +972,7 @@ def _sec_numba(ctx):
         old = pbp.parglobal
         try:
             pbp.parglobal = rt.parameters.parameters(**P)
-            gv, gx, gy, gz = pbp.get_local_gv(si, sj, float(ystep), om, sn, cs, orc.xyz[:, 0].copy(), orc.xyz[:, 1].copy(),
+            gv, gx, gy, gz = pbp.get_local_gv(si, sj, float(ystep * orc.unit), om, sn, cs, orc.xyz[:, 0].copy(), orc.xyz[:, 1].copy(),
                                               orc.xyz[:, 2].copy())
         finally:
             pbp.parglobal = old
@@ -932,7 +1058,7 @@ SECTIONS = (("py", _sec_py), ("c", _sec_c), ("ct", _sec_ct), ("cf", _sec_cf), ("
 def judge_fwd(rt, orc, routes=ALL_ROUTES, typing=None, count=None):
     """run one batch through the implementation routes; returns the Judge (problems, worst ratio, comparisons).
     typing = None: parameters are Python floats; "int" / "str": see typed_pars.  count: dictionary of vacuity counters"""
-    J = Judge(orc.ok)
+    J = Judge(orc.ok, orc.unitf)
     P = orc.P
     if typing is not None:
         P, problem = typed_pars(rt, orc.P, typing)
@@ -940,6 +1066,7 @@ def judge_fwd(rt, orc, routes=ALL_ROUTES, typing=None, count=None):
             J.problems.append(problem)
     ctx = _Ctx(rt, orc, J, P, typing, count, parfile=("cf_file" in routes))
     ctx.histories = "cf_nohist" not in routes
+    ctx.all_subsets = "hist_all" in routes
     if "numba_1grid" in routes:
         ctx.grids = 1
     if "al_last" in routes or "al_first" in routes:
@@ -998,6 +1125,10 @@ def roundtrip_uncompute(rt, J, label, gv, oms, orc, lam, wedge, chi, shift=0.0):
 
 
 LUT_SHAPE = (31, 32)        # covers the four peak positions of the lattice (two of them are whole pixels)
+# transform.compute_xyz_lab keeps the dtype of its peak arrays (np.array(peaks)): PixelLUT hands it the INTEGER pixel indices
+# of np.mgrid (no dxfile / spline), so (index - centre) * pixel size is truncated to a whole number of length units when it
+# is stored back - invisible with integer centres and integer pixel sizes (microns), total in mm or metres
+F_LUT_TRUNC = "C02-pixellut-integer-pixel-grid-truncated"
 
 
 def _det_of(P):
@@ -1032,8 +1163,24 @@ def judge_lut(rt, J, orc, stats=None, perturb=None):
     whole = orc.ok & (si == orc.sc) & (fi == orc.fc) & (si >= 0) & (fi >= 0) & (si < LUT_SHAPE[0]) & (fi < LUT_SHAPE[1]) & lab["ok"]
     si, fi = np.where(whole, si, 0), np.where(whole, fi, 0)
     keep = J.ok
+    Jx = J.sub(whole)
+    Jx.vec("PixelLUT.xyz at the whole pixels", lut.xyz[:, si, fi].T, orc.xyz, length=True)
+    if Jx.problems and whole.any():
+        # does the table hold exactly what the truncation of (index - centre) * size to whole length units gives?
+        pz, py = np.trunc((si - P["z_center"]) * P["z_size"]), np.trunc((fi - P["y_center"]) * P["y_size"])
+        xt = exact_rmat(orc.par).reshape(3, 3).dot(np.array([np.zeros(len(pz)), py, pz])).T + np.array([P["distance"], 0.0, 0.0])
+        Jt = J.sub(whole)
+        Jt.vec("PixelLUT.xyz", lut.xyz[:, si, fi].T, xt, length=True)
+        if not Jt.problems:
+            J.findings.append((F_LUT_TRUNC, "transform.PixelLUT built from the integer pixel grid (no dxfile / spline): "
+                               "compute_xyz_lab stores (index - centre) * pixel size back into the integer array, the positions "
+                               "are truncated to whole length units (y_size = %r: %s)" % (P["y_size"], Jx.problems[0][:200])))
+            if stats is not None:
+                stats["lut_integer_grid_truncated_batches"] = stats.get("lut_integer_grid_truncated_batches", 0) + 1
+            whole = np.zeros_like(whole)           # the values at the whole pixels follow the truncated positions: not judged
+            Jx = J.sub(whole)
+    J.absorb(Jx)
     J.ok = whole
-    J.vec("PixelLUT.xyz at the whole pixels", lut.xyz[:, si, fi].T, orc.xyz)
     J.ang("PixelLUT.tth at the whole pixels", lut.tth[si, fi], lab["tth"], modulo=False)
     J.ang("PixelLUT.eta at the whole pixels", lut.eta[si, fi], lab["eta"])
     J.vec("PixelLUT.k at the whole pixels", lut.k[:, si, fi].T, lab["k"])
@@ -1059,14 +1206,15 @@ def judge_lut(rt, J, orc, stats=None, perturb=None):
         stats["lut_pixels_beyond_90"] = stats.get("lut_pixels_beyond_90", 0) + int((ok & (xyz[0] < 0)).sum())
 
 
-def judge_internal(rt, orc, stats=None, perturb=None, dear=True):
+def judge_internal(rt, orc, stats=None, perturb=None, dear=True, subsets=2):
     """Bragg's law on every batch, whatever the grain translation and on both sides of two-theta = 90 degrees:
     ds = 2 sin(tth/2)/lambda = |g| on the columns of columnfile fast / slow, Ctransform.xyz2geometry, the raw
     compute_geometry kernel, refinegrains.compute_gv (tth, gv) and the numba route (compute_tth_eta, compute_gve), and
     each of them equal to the model's exact 2 sin(theta)/lambda; the arctan-free sin^2(theta) (compute_sinsqth_from_xyz,
     sinth2_sqrt_deriv) of the exact lab vector and of the route's own chain; transform.PixelLUT.
-    dear = False leaves out the columnfile / refinegrains / PixelLUT objects (for seeded subsets of the one-peak batches)"""
-    J = Judge(orc.ok)
+    dear = False leaves out the columnfile / refinegrains / PixelLUT objects (for seeded subsets of the one-peak batches);
+    subsets = how many subset histories of one columnfile (the next ones of the rotation SUBSETS)"""
+    J = Judge(orc.ok, orc.unitf)
     P = orc.P
     n = orc.n
     tr = rt.transform
@@ -1075,8 +1223,11 @@ def judge_internal(rt, orc, stats=None, perturb=None, dear=True):
     eds = orc.ds * (1 + 1e-7 if perturb == "ds" else 1)
 
     def law(label, tth, ds, g):
-        bragg = 2 * np.sin(np.radians(np.asarray(tth, float)) / 2) / lam
         modg = np.sqrt((np.asarray(g, float) ** 2).sum(axis=1))
+        if tth is None:
+            J.vec("%s: |g| = 2 sin(theta)/lambda of the model" % label, modg, eds)
+            return
+        bragg = 2 * np.sin(np.radians(np.asarray(tth, float)) / 2) / lam
         if ds is not None:
             J.vec("%s: ds = 2 sin(tth/2)/lambda" % label, ds, bragg)
             J.vec("%s: |g| = ds" % label, modg, ds)
@@ -1089,6 +1240,23 @@ def judge_internal(rt, orc, stats=None, perturb=None, dear=True):
             cf.parameters = rt.parameters.parameters(**P)
             cf.updateGeometry(fast=fast)
             law("columnfile.updateGeometry(fast=%s)" % fast, cf.tth, cf.ds, np.array([cf.gx, cf.gy, cf.gz]).T)
+        # the law holds on the SECOND update of one columnfile as well, when only a subset of the parameters (only the
+        # wavelength, only the wedge, only the detector ...) has changed since the first: the columns obey it for the
+        # CURRENT parameters
+        P0 = other_pars(P, P, orc.unitf)
+        for v, nm, keys in pick_subsets("internal", False, subsets):
+            PS = dict(P)
+            PS.update({k: P0[k] for k in keys})
+            cf = rt.columnfile.colfile_from_dict({"sc": orc.sc.copy(), "fc": orc.fc.copy(), "omega": orc.omega.copy()})
+            lab, only_g = subset_history(rt, cf, PS, dict(P), keys, v)
+            g = np.array([cf.gx, cf.gy, cf.gz]).T
+            if only_g:
+                law("columnfile." + lab % nm, None, None, g)
+            else:
+                law("columnfile." + lab % nm, cf.tth, cf.ds, g)
+            if stats is not None:
+                stats["internal_subset_histories"] = stats.get("internal_subset_histories", 0) + 1
+                stats["internal_subset_history:" + nm] = stats.get("internal_subset_history:" + nm, 0) + 1
     ct = tr.Ctransform(dict(P))
     xyz = ct.sf2xyz(orc.sc, orc.fc)
     geo = ct.xyz2geometry(xyz, orc.omega, t[0], t[1], t[2])
@@ -1150,9 +1318,13 @@ def judge_internal(rt, orc, stats=None, perturb=None, dear=True):
 
 
 def judge_laws(rt, orc, rng, perturb=None, stats=None):
-    """for a batch with t = 0: |g| = 2 sin(theta)/lambda = oracle ds, independent of omega, wedge, chi, omegasign;
-    g(omega2) = Rz(-(omega2-omega1)*sign) g(omega1).  Siblings use arbitrary (not rational-trig) angles too."""
-    J = Judge(orc.ok)
+    """for a batch with t = 0: |g| = 2 sin(theta)/lambda = oracle ds, independent of omega, wedge, chi, omegasign (and
+    scaling with 1/lambda at another wavelength); g(omega2) = Rz(-(omega2-omega1)*sign) g(omega1).  Siblings use arbitrary
+    (not rational-trig) angles too.  Besides a fresh object per sibling setting, ONE columnfile per route is kept through
+    all of them (updateGV / updateGeometry alternately, parameters edited in place / replaced): from one setting to the
+    next only the wavelength, only the omega sign, only the wedge, only chi changes - the laws and the round trip through
+    uncompute_g_vectors must hold for the CURRENT setting after every update."""
+    J = Judge(orc.ok, orc.unitf)
     P = orc.P
     tr = rt.transform
     n = orc.n
@@ -1160,18 +1332,27 @@ def judge_laws(rt, orc, rng, perturb=None, stats=None):
     sc, fc = orc.sc, orc.fc
     xyz = np.ascontiguousarray(orc.xyz)
     zero = np.zeros(3)
-    variants = [(P["wedge"], P["chi"], P["omegasign"]), (P["wedge"], P["chi"], -P["omegasign"]), (0.0, 0.0, 1.0),
-                (float(rng.uniform(-40, 40)), float(rng.uniform(-40, 40)), 1.0),
-                (float(rng.uniform(-170, 170)), 0.0, -1.0), (0.0, float(rng.uniform(-170, 170)), 1.0)]
+    # sibling settings (wedge, chi, omegasign, wavelength).  Their ORDER matters for the columnfiles that are kept through
+    # all of them (below): from one to the next only the wavelength, only the omega sign, ..., only the wedge, only chi changes
+    lam2 = lam * float(rng.uniform(1.1, 1.6))
+    r1, r2, r3 = float(rng.uniform(-170, 170)), float(rng.uniform(-40, 40)), float(rng.uniform(-170, 170))
+    variants = [(P["wedge"], P["chi"], P["omegasign"], lam), (P["wedge"], P["chi"], P["omegasign"], lam2),
+                (P["wedge"], P["chi"], -P["omegasign"], lam2), (0.0, 0.0, 1.0, lam), (r1, 0.0, 1.0, lam), (r1, r2, 1.0, lam),
+                (0.0, r3, -1.0, lam)]
     om1 = orc.omega
     dom = np.where(np.arange(n) % 2 == 0, 37.0, float(rng.uniform(-180, 180)))
     om2 = om1 + dom
+    # columnfiles kept through all the settings (one per route and omega list); their parameter object is kept as well
+    kept = {(fast, which): (rt.columnfile.colfile_from_dict({"sc": sc.copy(), "fc": fc.copy(), "omega": omv.copy()}),
+                            rt.parameters.parameters(**dict(P, t_x=0.0, t_y=0.0, t_z=0.0)))
+            for fast in (True, False) for which, omv in (("omega1", om1), ("omega2", om2))}
+    KEPT = "one columnfile kept through the settings (fast=%s)"
     # theta from the detector position alone (t = 0): tth of the documented arctan recipe
     tth_c, eta_c = tr.compute_tth_eta_from_xyz(xyz.T.copy(), None)
-    bragg = 2 * np.sin(np.radians(tth_c) / 2) / lam
+    bragg0 = 2 * np.sin(np.radians(tth_c) / 2) / lam
     if perturb == "bragg":
-        bragg = bragg * (1 + 1e-7)
-    J.vec("Bragg: 2 sin(theta)/lambda from compute_tth_eta_from_xyz vs the oracle's ds", bragg, orc.ds)
+        bragg0 = bragg0 * (1 + 1e-7)
+    J.vec("Bragg: 2 sin(theta)/lambda from compute_tth_eta_from_xyz vs the oracle's ds", bragg0, orc.ds)
     und = arctanfree_undefined(xyz.T)
     keep = J.ok
     J.ok = keep & ~und
@@ -1179,18 +1360,19 @@ def judge_laws(rt, orc, rng, perturb=None, stats=None):
         J.vec("Bragg: 2 sqrt(compute_sinsqth_from_xyz)/lambda vs the oracle's ds",
               2 * np.sqrt(tr.compute_sinsqth_from_xyz(xyz.T.copy())) / lam, orc.ds, widen=orc.sswiden)
     J.ok = keep
-    for (w, c, sg) in variants:
-        tag = "(wedge=%.6g chi=%.6g omegasign=%g)" % (w, c, sg)
+    for vi, (w, c, sg, lamv) in enumerate(variants):
+        tag = "(wedge=%.6g chi=%.6g omegasign=%g wavelength=%.6g)" % (w, c, sg, lamv)
+        bragg = bragg0 * (lam / lamv)
         for which, omv in (("omega1", om1), ("omega2", om2)):
             g = np.zeros((n, 3))
-            rt.c.compute_gv(xyz, omv, sg, lam, w, c, zero, g)
+            rt.c.compute_gv(xyz, omv, sg, lamv, w, c, zero, g)
             J.vec("|g| from cImageD11.compute_gv %s %s" % (which, tag), np.sqrt((g * g).sum(axis=1)), bragg)
             geo = np.zeros((n, 6))
-            rt.c.compute_geometry(xyz, omv, sg, lam, w, c, zero, geo)
+            rt.c.compute_geometry(xyz, omv, sg, lamv, w, c, zero, geo)
             J.vec("ds column of compute_geometry = 2 sin(tth/2)/lambda %s" % tag,
-                  geo[:, 2], 2 * np.sin(np.radians(geo[:, 0]) / 2) / lam)
+                  geo[:, 2], 2 * np.sin(np.radians(geo[:, 0]) / 2) / lamv)
             J.vec("|g| of compute_geometry = its ds %s" % tag, np.sqrt((geo[:, 3:6] ** 2).sum(axis=1)), geo[:, 2])
-            gp = tr.compute_g_vectors(tth_c, eta_c, omv * sg, lam, wedge=w, chi=c).T
+            gp = tr.compute_g_vectors(tth_c, eta_c, omv * sg, lamv, wedge=w, chi=c).T
             J.vec("|g| from transform.compute_g_vectors %s %s" % (which, tag), np.sqrt((gp * gp).sum(axis=1)), bragg)
             if which == "omega1":
                 g1, gp1 = g, gp
@@ -1199,16 +1381,16 @@ def judge_laws(rt, orc, rng, perturb=None, stats=None):
                 J.vec("omega law (Python): g(omega2) = Rz(-(omega2-omega1) sign) g(omega1) %s" % tag, gp,
                       rotz(-dom * sg, gp1))
         if rt.pbp is not None:
-            gn = rt.pbp.compute_g_vectors(tth_c, eta_c, om1 * sg, lam, wedge=w, chi=c).T
+            gn = rt.pbp.compute_g_vectors(tth_c, eta_c, om1 * sg, lamv, wedge=w, chi=c).T
             J.vec("|g| from point_by_point.compute_g_vectors %s" % tag, np.sqrt((gn * gn).sum(axis=1)), bragg)
-            gn2 = rt.pbp.compute_g_vectors(tth_c, eta_c, om2 * sg, lam, wedge=w, chi=c).T
+            gn2 = rt.pbp.compute_g_vectors(tth_c, eta_c, om2 * sg, lamv, wedge=w, chi=c).T
             J.vec("|g| from point_by_point.compute_g_vectors omega2 %s" % tag, np.sqrt((gn2 * gn2).sum(axis=1)), bragg)
             J.vec("omega law (numba): g(omega2) = Rz(-(omega2-omega1) sign) g(omega1) %s" % tag, gn2, rotz(-dom * sg, gn))
             if stats is not None:
                 stats["numba_law_rows"] = stats.get("numba_law_rows", 0) + 2 * int(J.ok.sum())
         # the packed fast path and the columnfile g-vector route obey the same two laws
-        PV = dict(P, wedge=w, chi=c, omegasign=sg, t_x=0.0, t_y=0.0, t_z=0.0)
-        ct = tr.Ctransform(PV)
+        PV = dict(P, wedge=w, chi=c, omegasign=sg, wavelength=lamv, t_x=0.0, t_y=0.0, t_z=0.0)
+        ct = tr.Ctransform(dict(PV))
         res = {}
         for which, omv in (("omega1", om1), ("omega2", om2)):
             res[("sf2gv", which)] = np.array(ct.sf2gv(sc.copy(), fc.copy(), omv.copy(), 0.0, 0.0, 0.0))
@@ -1218,22 +1400,46 @@ def judge_laws(rt, orc, rng, perturb=None, stats=None):
                 cfv = rt.columnfile.colfile_from_dict({"sc": sc.copy(), "fc": fc.copy(), "omega": omv.copy()})
                 cfv.updateGV(pars=rt.parameters.parameters(**PV), fast=fast)
                 res[("columnfile.updateGV(fast=%s)" % fast, which)] = np.array([cfv.gx, cfv.gy, cfv.gz]).T
+                # the kept columnfile: this setting differs from the previous one in a subset of the non-detector
+                # parameters only; alternately its parameter object is edited in place / replaced through pars=, and
+                # updateGV / updateGeometry is called
+                cfk, pok = kept[(fast, which)]
+                if vi % 4 < 2:
+                    for k in ("wedge", "chi", "omegasign", "wavelength"):
+                        pok.set(k, PV[k])
+                    arg = pok if vi == 0 else None
+                else:
+                    arg = pok = rt.parameters.parameters(**PV)
+                    kept[(fast, which)] = (cfk, pok)
+                if vi % 2 == 0:
+                    cfk.updateGV(pars=arg, fast=fast)
+                else:
+                    cfk.updateGeometry(pars=arg, fast=fast)
+                    J.vec("%s %s: ds = 2 sin(tth/2)/lambda %s" % (KEPT % fast, which, tag), cfk.ds,
+                          2 * np.sin(np.radians(cfk.tth) / 2) / lamv)
+                    J.vec("%s %s: ds = 2 sin(theta)/lambda %s" % (KEPT % fast, which, tag), cfk.ds, bragg)
+                res[(KEPT % fast, which)] = np.array([cfk.gx, cfk.gy, cfk.gz]).T
+                if stats is not None and vi:
+                    stats["law_kept_columnfile_updates"] = stats.get("law_kept_columnfile_updates", 0) + 1
         for (name, which), gv in sorted(res.items()):
             J.vec("|g| from %s %s %s" % (name, which, tag), np.sqrt((gv * gv).sum(axis=1)), bragg)
             if which == "omega2":
                 J.vec("omega law (%s): g(omega2) = Rz(-(omega2-omega1) sign) g(omega1) %s" % (name, tag), gv,
                       rotz(-dom * sg, res[(name, "omega1")]))
-        # code-level round trip: the g-vectors of the real forward routes, at this wedge / chi / omega sign (rational and
-        # arbitrary), go back through uncompute_g_vectors: one of the two solutions must be (omega * sign, eta) of the
-        # peak, tth the peak's two-theta
-        for name in ("sf2gv", "columnfile.updateGV(fast=True)", "columnfile.updateGV(fast=False)"):
+        # code-level round trip: the g-vectors of the real forward routes, at this wedge / chi / omega sign / wavelength
+        # (rational and arbitrary), go back through uncompute_g_vectors: one of the two solutions must be (omega * sign,
+        # eta) of the peak, tth the two-theta of the peak at this wavelength's own Bragg angle (the detector position
+        # fixes two-theta, whatever the wavelength)
+        for name in ("sf2gv", "columnfile.updateGV(fast=True)", "columnfile.updateGV(fast=False)", KEPT % True, KEPT % False):
             for which, omv in (("omega1", om1), ("omega2", om2)):
-                k = roundtrip_uncompute(rt, J, "%s %s %s" % (name, which, tag), res[(name, which)], omv * sg, orc, lam, w, c,
+                k = roundtrip_uncompute(rt, J, "%s %s %s" % (name, which, tag), res[(name, which)], omv * sg, orc, lamv, w, c,
                                         shift=(1e-4 if perturb == "roundtrip" else 0.0))
                 if stats is not None:
                     stats["roundtrip_rows"] = stats.get("roundtrip_rows", 0) + k
                     if sg < 0:
                         stats["roundtrip_rows_negative_sign"] = stats.get("roundtrip_rows_negative_sign", 0) + k
+                    if name.startswith("one columnfile"):
+                        stats["roundtrip_rows_kept_columnfile"] = stats.get("roundtrip_rows_kept_columnfile", 0) + k
     # columnfile columns: ds = 2 sin(tth/2)/lambda = |g|
     for fast in (True, False):
         cf = rt.columnfile.colfile_from_dict({"sc": sc.copy(), "fc": fc.copy(), "omega": om1.copy()})
@@ -1268,7 +1474,7 @@ def judge_project(rt, orc, perturb=None, stats=None, dear=True):
     compute_xyz_from_tth_eta -> pixel -> forward through every route -> g.  Runs on every forward batch, i.e. with the
     batch's own wedge / chi / translation (exact zeros where a switch is off).  dear = False leaves out the columnfile
     objects"""
-    J = Judge(orc.ok)
+    J = Judge(orc.ok, orc.unitf)
     P = orc.P
     tr = rt.transform
     n = orc.n
